@@ -21,6 +21,7 @@ func init() {
 }
 
 func runC18(c *eng.Ctx) {
+	pagingEnds(c, "ORDER-rename")
 	P := c.P
 	_ = P
 	storeChoice(c, "SIB-store-choice")
